@@ -23,7 +23,11 @@ RootLaws(a) ==
   \cup (IF IsAtomL(a) THEN {[ast |-> Rep(a, 1, 1, FALSE), law |-> "r{1}", same |-> "all"]} ELSE {})
   \cup (IF a.k = "rep" /\ a.max # -1 /\ a.max >= a.min /\ a.max <= 3 /\ Pure(a.r) /\ (a.min + a.max > 0)
         THEN {[ast |-> Ncg(MkSeq(Copies(a.r, a.min) \o Copies(Opt(Ncg(a.r), a.lazy), a.max - a.min))),
-               law |-> "r{n,m}", same |-> "all"]} ELSE {})
+               law |-> "r{n,m}",
+               \* two or more RELUCTANT optional copies do not preserve ordered choice when r has several paths:
+               \* r{0,2}? prefers (r1 r)-paths to the one-iteration path r2, (?:r)??(?:r)?? does not
+               \* ((?:ab|a){0,2}?b on abab: abab against ab) - there the law is claimed for is_match only
+               same |-> IF a.lazy /\ a.max - a.min >= 2 THEN "m" ELSE "all"]} ELSE {})
   \cup (IF a.k = "rep" /\ a.max = -1 /\ a.min <= 3 /\ Pure(a.r) /\ a.q = "n"
         THEN {[ast |-> Ncg(MkSeq(Copies(a.r, a.min) \o <<Star(a.r, a.lazy)>>)), law |-> "r{n,}", same |-> "all"]}
         ELSE {})
